@@ -43,9 +43,10 @@ ASSUMPTIONS = [
 ]
 BOUNDS = {
     "quick": "20 scalings x all <=2-factor strings (4422) x 2 spellings; 20 scalings x 5 constant "
-    "classes; 4 (m,kg) scalings x {no fracture, 2 intersecting fractures}",
+    "classes; 4 (m,kg) scalings x {no fracture, 2 intersecting fractures, 2 intersecting fractures "
+    "with non-matching fracture/mortar grids}",
     "thorough": "61 scalings x all <=2-factor strings + 8 scalings x all 3-factor strings (287496 each); 61 x 5 "
-    "constants; all 8 non-trivial (m,kg) in {1,10,1e-2}x{1,1e3,1e-3} x 4 geometries + 4 mass+energy runs",
+    "constants; all 8 non-trivial (m,kg) in {1,10,1e-2}x{1,1e3,1e-3} x 6 geometries (incl. non-matching grids) + 4 mass+energy runs",
 }
 MIN_CLASSES = 4
 CHUNK = 64
@@ -135,10 +136,10 @@ def cases(tier):
         for m in MATERIALS:
             out.append({"kind": "materials", "scaling": s, "cls": m})
     mk = [(10, 1), (1, 1e3), (1e-2, 1e-3), (10, 1e-3)]
-    geoms = [("cart", []), ("cart", [0, 1])]
+    geoms = [("cart", []), ("cart", [0, 1]), ("nonmatch", [0, 1])]
     if tier == "thorough":
         mk = [(a, b) for a in (1, 10, 1e-2) for b in (1, 1e3, 1e-3) if (a, b) != (1, 1)]
-        geoms = [("cart", []), ("cart", [0]), ("cart", [0, 1]), ("nonmatch", [0, 1])]
+        geoms = [("cart", []), ("cart", [0]), ("cart", [0, 1]), ("square", [0, 1]), ("nonmatch", [0]), ("nonmatch", [0, 1])]
     for m, kg in mk:
         for grid, fr in geoms:
             out.append({"kind": "model", "fam": "flow", "units": {"m": m, "kg": kg}, "grid": grid, "fracs": fr})
@@ -408,7 +409,19 @@ def _solve(case, units):
         vs = [v for v in es.variables if v.name == name]
         if not vs:
             continue
-        x = es.get_variable_values(variables=vs, iterate_index=0)
+        if name.startswith("interface_"):
+            # the numbering of mortar cells is not part of the solution (it may depend on
+            # tolerances of the grid matching): compare the fluxes where they act, on the
+            # faces of the primary and the cells of the secondary grid
+            parts = []
+            for v in vs:
+                lam = np.asarray(es.get_variable_values(variables=[v], iterate_index=0), dtype=float)
+                intf = v.domain
+                parts.append(intf.mortar_to_primary_int() @ lam)
+                parts.append(intf.mortar_to_secondary_int() @ lam)
+            x = np.concatenate(parts)
+        else:
+            x = es.get_variable_values(variables=vs, iterate_index=0)
         fields[name] = np.asarray(x, dtype=float) * U.factor(unit, units)
     res = float(np.max(np.abs(model.equation_system.assemble(evaluate_jacobian=False)))) if es.num_dofs() else 0.0
     return fields, res
@@ -462,4 +475,12 @@ def run_case(case) -> Outcome:
 
 
 def known_finding(case, viol):
+    # refine_grid_1d drops the fracture_faces tag: on the shipped non-matching geometry
+    # with two intersecting fractures the fracture faces at the intersection become
+    # external (Dirichlet) boundary faces and the interface flux enters as a pressure value
+    # -> the run depends on the length unit.
+    if (case and case.get("kind") == "model" and case.get("grid") == "nonmatch" and len(case.get("fracs", [])) == 2
+            and case.get("units", {}).get("m", 1) != 1
+            and viol.get("what") == "SI solution of the scaled run differs from the unscaled run"):
+        return "C43-nonmatching-intersection-refine_grid_1d-tags"
     return None
